@@ -64,7 +64,7 @@ theorem rejects_duplicates (l : List Nat) (hd : ¬ l.Nodup) : weekdaysToHex (.co
 /-- REJECTION: every mask outside 2..254 (any integer) -/
 theorem rejects_mask (n : Int) (h : n < 2 ∨ 254 < n) : bitSummaryToDays n = .error .valueError := by
   have : ¬ (1 < n ∧ n < 255) := by omega
-  simp [bitSummaryToDays, this]
+  simp [bitSummaryToDays, inChain_bs2d, this]
 
 /- non-vacuity: a concrete non-trivial set in sequence form, and a duplicate-bearing one -/
 example : weekdaysToHex (.coll false [6, 0, 3]) = .ok "92".toList ∧ maskOf [6, 0, 3] = 0x92 := by decide +kernel
